@@ -338,7 +338,7 @@ def run_ebnf_meta(ctx, G, inputs, only=None):
             problems, cnt = [], [0]
             cmp_spans(ref, out[1], w, problems, cnt)
             fid = None
-            if problems and problems[0][0] == 'meta-span-differs-from-what-the-rule-matched':
+            if problems and problems[0][0] in ('meta-span-differs-from-what-the-rule-matched', 'meta-missing-on-nonempty-node'):
                 # F-C06-1: does the token-collapse model explain every span of this tree?
                 ref2 = R.Shaper(rg, inp, False, True, spans='token-collapse').shape(ds[0])
                 p2 = []
@@ -373,6 +373,10 @@ def _meta_corpus():
         (G(r('start', [a([plus('_i')])]), r('_i', [a([['r', 'asg'], L(';')])]), asg), texts),
         (G(r('start', [a([plus('st')])]), r('st', [a([['r', 'asg'], ['t', '_U']]), a([['t', '_U'], ['r', 'asg']], 'pre')], mods='?'), asg), texts),
         (G(r('start', [a([['r', 'st'], L(';'), ['m', [a([['r', 'st']])]]])]), r('st', [a([['r', 'asg'], ['q', ['t', '_U'], '?', 0, 0]])], mods='?'), asg), texts),
+        # a ?-rule whose only remaining child is a None placeholder (F-C06-1 again: nothing to hang its filtered token on)
+        (G(r('start', [a([['r', 'st'], L(';')])]), r('st', [a([['t', '_U'], ['m', [a([['t', 'A']])]]])], mods='?')), ['u;', 'ua;', ' u ;', 'u\n;']),
+        # a node that matched nothing itself, inlined through a ?-rule that did: it takes that rule's span
+        (G(r('start', [a([['r', 'e'], L('('), L(',')])], mods='?'), r('e', [a([['m', [a([['t', 'B']])]]], 'al0')])), ['(,', 'b(,', ' ( ,', '(\n,']),
     ]
 
 
